@@ -5,7 +5,7 @@ import json, os
 ROOT = os.path.dirname(os.path.dirname(os.path.abspath(__file__)))
 D = {
  "C01": ("RDF (README.md)", "datasets (json-gold output + hand-built): entries, leaf accounting", "JSON-LD expansion, URDNA2015", "holds (D25, D33 repaired)"),
- "C02": ("Merklizer, SMT (README.md)", "merklizers x all member + 6 non-member path families, built/resolved paths, shared trees; SMT aux driver", "json-gold; go-merkletree-sql modelled", "holds"),
+ "C02": ("Merklizer, SMT (README.md)", "merklizers x all member + 6 non-member path families, built/resolved paths, shared trees; SMT aux driver", "json-gold; go-merkletree-sql modelled", "holds (D36 repaired)"),
  "C03": ("RDF/Ord* (README-Order.md)", "entries + ROOT under several graph orders and label renamings; metamorphic re-presentations, boundary sweeps, remote contexts through the real loader", "JSON re-presentation invariance is json-gold's: metamorphic only", "known D21 x3 (D34 repaired)"),
  "C04": ("Value", "boundary grid x 9 primes (shared-modulus hashers) x lexical / Go-typed spellings, instants at machine-word boundaries, floats under integer types", "lexical grammar of big.Rat / time.Parse as modelled", "holds"),
  "C05": ("Claim (README.md)", "call histories over option grids, failing calls, two loaders, multi-context credentials", "Keccak, DID->ID, root and encodings are oracles", "holds (D6, D11 repaired)"),
